@@ -782,6 +782,14 @@ fn sim_thread(sim: Arc<Sim>, cfg: Config) {
         }
     }
 
+    // foreign threads first: once they have ended no further arbiter can appear
+    for (slot, h) in foreign_handles {
+        if sim.aborted() {
+            break;
+        }
+        let _ = sim.blocking_join(slot, move || h.join());
+    }
+
     // every arbiter whose Arbiter::new had returned before the first stop was issued has been
     // told to stop by the system: its thread ends and join() returns
     let stop_seq = sim.st.lock().unwrap().first_stop.map(|s| s.0).unwrap_or(u64::MAX);
@@ -834,14 +842,13 @@ fn sim_thread(sim: Arc<Sim>, cfg: Config) {
             do_spawn(&sim, a, TaskKind::Fn, true);
         }
     }
-    for (slot, h) in foreign_handles {
-        if sim.aborted() {
-            break;
-        }
-        let _ = sim.blocking_join(slot, move || h.join());
-    }
-    // slot 0 ends the run
+    // slot 0 ends the run; nothing else may still be running (it would free-run after this point)
     let mut st = sim.st.lock().unwrap();
+    if !st.aborted {
+        if let Some(s) = (1..st.slots.len()).find(|s| st.slots[*s] != SlotState::Exited) {
+            st.violation.get_or_insert(Violation::new("harness-leftover-thread", format!("slot {s} is still alive at the end of the run")));
+        }
+    }
     st.slots[0] = SlotState::Exited;
     st.aborted = true;
     drop(st);
